@@ -15,7 +15,7 @@ files, a never-rendered "theme" class, no Media below such a class - and code te
 alphabet with backslash sequences \\n \\d \\1 \\g<0> \\\\ \\201C and a trailing backslash).
 
 spec -> code: every enumerated page through render_dependencies() in document and fragment mode
-              with placeholders / <head><body> only (alphabet A), every 2nd page again under
+              with placeholders / <head><body> only (alphabet A), every 4th page again under
               alphabet B; the final HTML is parsed (html.parser): inline <script>/<style> bodies in
               order, src/href lists, the decoded data-djc JSON, leftover markers.
 code -> spec: random programs with random asset assignments (shared files, inheritance by subclassing
@@ -254,6 +254,12 @@ def random_assets(rnd: random.Random, prog, names=("ascii", "ascii", "under")) -
 
 def run_cases(chk: Check, cases, exp, label: str) -> Dict[str, int]:
     obs = pmap(observe, cases, workers=12)
+    # a render that exceeded the per-item limit in the (possibly overloaded) pool is repeated with a generous limit
+    # before it counts as a hang
+    hung = [i for i, o in enumerate(obs) if o.get("hang")]
+    if hung:
+        for i, o in zip(hung, pmap(observe, [cases[i] for i in hung], workers=4, per_item_s=90.0, chunk=1)):
+            obs[i] = o
     st = {"ok": 0, "zone": 0, "bad": 0}
     bad = []
     for case, o in zip(cases, obs):
@@ -297,7 +303,7 @@ def run_cases(chk: Check, cases, exp, label: str) -> Dict[str, int]:
     return st
 
 
-def body(chk: Check, *, mc_nodes: int, n_random: int, deep: int, b_every: int = 2) -> None:
+def body(chk: Check, *, mc_nodes: int, n_random: int, deep: int, b_every: int = 4) -> None:
     states = trans = 0
     for mode in P.MODES:
         progs, exp, r = djc.mc_programs("slots", mode, mc_nodes)
